@@ -22,23 +22,45 @@ func (l *listener) Accept() (net.Stream, error) {
 func (l *listener) Close() error { return nil }
 
 // tap is the client's end of the connection: every byte the proxy side writes (c2s) and
-// every byte it reads (s2c) is recorded.
+// every byte it reads (s2c) is cut into frames as it passes (each byte is looked at once,
+// whatever the length of the run).
 type tap struct {
 	gonet.Conn
 	mu       sync.Mutex
-	c2s, s2c []byte
+	c2s, s2c stream
+}
+
+// stream: the frames completed so far and the bytes of the frame still arriving.
+type stream struct {
+	pend   []byte
+	frames []Frame
+}
+
+func (s *stream) feed(b []byte) {
+	s.pend = append(s.pend, b...)
+	for len(s.pend) >= 28 {
+		size := int(binary.LittleEndian.Uint32(s.pend[8:12]))
+		if len(s.pend) < 28+size {
+			return
+		}
+		p := s.pend
+		s.frames = append(s.frames, Frame{ID: binary.LittleEndian.Uint32(p[4:8]), Type: p[14],
+			Service: binary.LittleEndian.Uint32(p[16:20]), Object: binary.LittleEndian.Uint32(p[20:24]),
+			Action: binary.LittleEndian.Uint32(p[24:28]), Payload: append([]byte(nil), p[28:28+size]...)})
+		s.pend = append([]byte(nil), p[28+size:]...)
+	}
 }
 
 func (t *tap) Write(b []byte) (int, error) {
 	t.mu.Lock()
-	t.c2s = append(t.c2s, b...)
+	t.c2s.feed(b)
 	t.mu.Unlock()
 	return t.Conn.Write(b)
 }
 func (t *tap) Read(b []byte) (int, error) {
 	n, err := t.Conn.Read(b)
 	t.mu.Lock()
-	t.s2c = append(t.s2c, b[:n]...)
+	t.s2c.feed(b[:n])
 	t.mu.Unlock()
 	return n, err
 }
@@ -58,34 +80,19 @@ const (
 	tEvent = 5
 )
 
-func parseFrames(b []byte) []Frame {
-	var fs []Frame
-	for len(b) >= 28 {
-		size := int(binary.LittleEndian.Uint32(b[8:12]))
-		if len(b) < 28+size {
-			break
-		}
-		fs = append(fs, Frame{ID: binary.LittleEndian.Uint32(b[4:8]), Type: b[14],
-			Service: binary.LittleEndian.Uint32(b[16:20]), Object: binary.LittleEndian.Uint32(b[20:24]),
-			Action: binary.LittleEndian.Uint32(b[24:28]), Payload: append([]byte(nil), b[28:28+size]...)})
-		b = b[28+size:]
-	}
-	return fs
-}
-
 // mark / since: the frames of each direction that appeared after a mark.
 type mark struct{ c2s, s2c int }
 
 func (t *tap) mark() mark {
 	t.mu.Lock()
 	defer t.mu.Unlock()
-	return mark{len(parseFrames(t.c2s)), len(parseFrames(t.s2c))}
+	return mark{len(t.c2s.frames), len(t.s2c.frames)}
 }
 func (t *tap) since(m mark) (c2s, s2c []Frame) {
 	t.mu.Lock()
 	defer t.mu.Unlock()
-	a, b := parseFrames(t.c2s), parseFrames(t.s2c)
-	return a[m.c2s:], b[m.s2c:]
+	a, b := t.c2s.frames, t.s2c.frames
+	return a[m.c2s:len(a):len(a)], b[m.s2c:len(b):len(b)]
 }
 
 func find(fs []Frame, typ uint8, service, action uint32) *Frame {
